@@ -12,6 +12,7 @@ import (
 	"strconv"
 	"strings"
 	"sync"
+	"time"
 
 	"github.com/osteele/liquid"
 	"github.com/osteele/liquid/render"
@@ -303,6 +304,8 @@ var c04 struct {
 	solo map[string]string
 }
 
+var c04SchedDeadline time.Time
+
 func c04Solo(nT int, op c04Op) string {
 	k := op.String()
 	if s, ok := c04.solo[k]; ok {
@@ -379,7 +382,11 @@ func c04Families(tier string) []explore.Family {
 		first := true
 		outcomes := map[string]bool{}
 		var syncPoints int64
-		sched.Deadline = explore.WorkerDeadline
+		if c04SchedDeadline.IsZero() && !explore.WorkerDeadline.IsZero() {
+			// the schedule trees may use three quarters of what is left of the budget: the race pass comes after them
+			c04SchedDeadline = explore.WorkerDeadline.Add(-time.Until(explore.WorkerDeadline) / 4)
+		}
+		sched.Deadline = c04SchedDeadline
 		execs, truncated := sched.ExploreShard(func() []func(s *sched.S) {
 			b := mk()
 			// the scheduler object is created inside Execute; route Point calls through it
